@@ -34,11 +34,7 @@ func rtNext() int64 {
 }
 
 func rtParam(name string) int {
-	v, ok := rts.params[name]
-	if !ok {
-		panic("harness parameter not configured: " + name)
-	}
-	return int(v)
+	return int(rts.params[name]) // parameters that are not configured are 0
 }
 
 func rtByte(name string) byte { return byte(rtNext()) }
